@@ -927,6 +927,10 @@ func genScenario(e *Emitter, rng *rand.Rand) *Scenario {
 }
 
 func init() {
+	streams["getpost"] = streamGetPost
+	executors["e2e_getpost"] = func(a []string) string {
+		return executors["e2e"]([]string{a[0]}) + " ## " + executors["e2e"]([]string{a[1]})
+	}
 	streams["chunk"] = streamChunk
 	pair := func(a []string) string {
 		return projectForChunking(executors["e2e"]([]string{a[0]})) + " ## " + projectForChunking(executors["e2e"]([]string{a[1]}))
@@ -1125,4 +1129,86 @@ func contains(xs []string, x string) bool {
 		}
 	}
 	return false
+}
+
+// streamGetPost: the same message sent as a Connect GET and as a Connect POST.
+func streamGetPost(e *Emitter, rng *rand.Rand, tier string) {
+	n := 500
+	if tier == "thorough" {
+		n = 15000
+	}
+	for i := 0; i < n; i++ {
+		base := &Scenario{}
+		base.Cfg.Protocols = subset(rng, []string{"connect", "grpc", "grpcweb"}, true)
+		base.Cfg.Codecs = subset(rng, []string{"raw", "hexa", "rev"}, true)
+		base.Cfg.Compress = subset(rng, []string{"Z", "Y"}, false)
+		base.Cfg.MaxMsg = 1000
+		base.Cfg.MaxGetURL = pick(rng, []uint32{60, 80, 100, 120, 200})
+		m := methods[1] // Get
+		if rng.IntN(10) == 0 {
+			m = methods[0] // Unary: GET must be refused
+		}
+		codec := pick(rng, []string{"raw", "hexa", "rev"})
+		comp := pick(rng, []string{"", "", "Z", "Y", "identity"})
+		value := randBytes(rng, rng.IntN(14), nil)
+		if rng.IntN(4) == 0 {
+			value = bytesRepeat('a', 5+rng.IntN(30))
+		}
+		mk := func(proto string) *Scenario {
+			raw, _ := json.Marshal(base)
+			var sc Scenario
+			_ = json.Unmarshal(raw, &sc)
+			fixed := rand.New(rand.NewPCG(uint64(i), 7)) // same auxiliary choices for both
+			buildRequestFixed(fixed, &sc, m, clientPlan{proto: proto, codec: codec, comp: comp}, value)
+			sc.Script = [][]string{{"readall", "64"}, {"sethdr", hs("Content-Type"), hs("application/x")}, {"status", "200"}}
+			return &sc
+		}
+		a, _ := json.Marshal(mk("connect-get"))
+		b, _ := json.Marshal(mk("connect-unary"))
+		e.Emit("e2e_getpost " + hex.EncodeToString(a) + " " + hex.EncodeToString(b))
+	}
+}
+
+// buildRequestFixed builds a plain, valid Connect unary request (GET or POST) carrying value.
+func buildRequestFixed(rng *rand.Rand, sc *Scenario, m methodInfo, cp clientPlan, value []byte) {
+	sc.Req.Path = hs("/verif.v1.Svc/" + m.name)
+	sc.Req.ProtoMajor = 2
+	sc.Req.BodyEnd = "eof"
+	sc.Req.ContentLength = -1
+	sc.ClientProto = "connect-unary"
+	add := func(k, v string) { sc.Req.Headers = append(sc.Req.Headers, []string{hs(k), hs(v)}) }
+	payload := encodeValue(cp.codec, value)
+	if cp.comp != "" && cp.comp != "identity" {
+		payload = compressValue(cp.comp, payload)
+	}
+	if cp.proto == "connect-get" {
+		sc.Req.Method = hs("GET")
+		q := url.Values{}
+		q.Set("connect", "v1")
+		q.Set("encoding", cp.codec)
+		if cp.comp != "" {
+			q.Set("compression", cp.comp)
+		}
+		if cp.codec != "hexa" || (cp.comp != "" && cp.comp != "identity") || rng.IntN(2) == 0 {
+			q.Set("base64", "1")
+			if rng.IntN(2) == 0 {
+				q.Set("message", base64.URLEncoding.EncodeToString(payload))
+			} else {
+				q.Set("message", base64.RawURLEncoding.EncodeToString(payload))
+			}
+		} else {
+			q.Set("message", string(payload))
+		}
+		sc.Req.Query = hs(q.Encode())
+		return
+	}
+	sc.Req.Method = hs("POST")
+	add("Content-Type", "application/"+cp.codec)
+	add("Connect-Protocol-Version", "1")
+	if cp.comp != "" {
+		add("Content-Encoding", cp.comp)
+	}
+	if len(payload) > 0 {
+		sc.Req.Body = []string{hx(payload)}
+	}
 }
